@@ -111,6 +111,7 @@ static std::string handle(const std::string& verb, const std::vector<std::string
         else if (verb == "vfs") { return vh::verb_vfs(f); }
         else if (verb == "front") { return vh::verb_front(f); }
         else if (verb == "pp") { return vh::verb_pp(f); }
+        else if (verb == "diag") { return vh::verb_diag(f); }
         else { return "bad-verb"; }
     }
     catch (const std::exception& ex)
